@@ -78,9 +78,9 @@ pub fn judge(p: &Program) -> Outcome {
         Run::BackendPanic(pi) => match refsem::meaning(p) {
             // The reference defines a document with cut recursion: an accepted program that
             // produces no document at all breaks C09 as well as C01.
-            Ok((_, points)) if points > 0 => Outcome::bad(
+            Ok((_, points)) => Outcome::bad(
                 "no-document",
-                format!("no document | panic {} | the reference defines a document with {} recursion", panic_site(&pi), "cut"),
+                format!("no document | panic {} | the reference defines a document{}", panic_site(&pi), if points > 0 { " with cut recursion" } else { "" }),
                 format!("accepted, then panic at {}: {}", pi.location, pi.message.chars().take(200).collect::<String>()),
                 case(),
             ),
